@@ -499,6 +499,18 @@ done:
 	b.skipGlyph()
 }
 
+// exceedsMaxLen reports whether inserting `count` more glyphs would make the buffer
+// longer than its length budget. As in HarfBuzz, where growing beyond max_len
+// marks the buffer as unsuccessful, the operations budget is then exhausted, so
+// that the remaining substitutions are skipped.
+func (b *Buffer) exceedsMaxLen(count int) bool {
+	if len(b.outInfo)+len(b.Info)-b.idx+count > b.maxLen {
+		b.maxOps = 0
+		return true
+	}
+	return false
+}
+
 func (b *Buffer) deleteGlyphsInplace(filter func(*GlyphInfo) bool) {
 	// Merge clusters and delete filtered glyphs.
 	// NOTE! We can't use out-buffer as we have positioning data.
